@@ -32,11 +32,17 @@ C09DomainM(t) ==
 
 ModelledTree(t) == Kinds(t) \subseteq {"raw", "orig", "sms", "concat", "replace", "box"}
 
+(* TLC integers are 32-bit: the encoder model needs room for the deltas      *)
+SmallSegs(map) ==
+  LET segs == DecodeMappings(map.m)
+  IN \A i \in 1..Len(segs) : segs[i].ol <= 1073741824 /\ segs[i].oc <= 1073741824
+
 (* where the models apply: ASCII texts, maps consistent with their texts     *)
 RECURSIVE TreeMDomain(_)
 TreeMDomain(t) ==
   CASE t.k \in {"raw", "orig"} -> IsAscii(t.b)
-    [] t.k = "sms" -> IF t.inner = <<>> THEN AsciiConsistent(t) ELSE C09DomainM(t)
+    [] t.k = "sms" -> IF t.inner = <<>> THEN AsciiConsistent(t) /\ SmallSegs(t.map)
+                      ELSE C09DomainM(t) /\ SmallSegs(t.map) /\ SmallSegs(t.inner[1])
     [] t.k = "concat" -> LET ch == Children(t) IN \A i \in 1..Len(ch) : TreeMDomain(ch[i])
     [] t.k \in {"replace", "box"} -> TreeMDomain(t.inner)
     [] OTHER -> FALSE
